@@ -21,6 +21,7 @@ NEEDS = {
     "C10": "two or more voices with non-uniform interpolation weights (e.g. load the bundled voice twice, or a modified copy of it) and per-kind weights (duration / parameter / GV) that differ from each other",
     "C11": "a non-default MSD threshold or GV weight on one stream only, an MSD value exactly at the threshold, a stream that is not MSD",
     "C12": "a non-default GV weight, a label inside the voice's GV-off context, an utterance where no frame is GV-eligible, a stream without GV",
+    "C13": "an LSP-family voice or direct use of the public Vocoder with stage >= 1 (spectrum = [gain, w1..wm] with increasing frequencies in (0, pi)), odd vs even order, stage 1..4, linear vs log gain, alpha != 0",
     "C14": "a non-zero postfilter coefficient beta, a particular alpha, a particular cepstral order (e.g. order 2 or 3), the LSP filter family (stage != 0)",
     "C15": "a non-zero additional half tone, a value that drives F0 to the 20 Hz / 20 kHz limits, negative values, particular voiced/unvoiced boundaries",
     "C16": "a non-zero volume in dB (positive or negative), one of the two filter families, the first frame vs later frames, volume changed between two syntheses",
